@@ -24,6 +24,7 @@ const PROPS: &[Prop] = &[
     Prop { id: "C12", level: "exploration", run: props::c12::run, replay: props::c12::replay },
     Prop { id: "C13", level: "exploration", run: props::c13::run, replay: props::c13::replay },
     Prop { id: "C14", level: "exploration", run: props::c14::run, replay: props::c14::replay },
+    Prop { id: "C15", level: "exploration", run: props::c15::run, replay: props::c15::replay },
 ];
 
 fn usage() -> ! {
